@@ -98,6 +98,8 @@ class Model:
     def __init__(self, header):
         self.header = header
         self.registered = {sid: [canon(n) for n in s["names"]] for sid, s in header["senders"].items()}
+        # senders whose handler table does not live in an ordinary instance __dict__ (named in signatures only)
+        self.layout = {sid: x["kind"] for sid, x in header["senders"].items() if x.get("kind") in ("slots", "slotsub", "slotsdict", "fwd", "prop")}
         self.lists = {}  # (sid, canon(name)) -> [Conn]
         self.conns = {}  # cid -> Conn
         self.by_hid = {}  # hid -> [Conn] in connection order
@@ -112,6 +114,9 @@ class Model:
 
     def find(self, sig, msg):
         self.findings.append((sig, msg))
+
+    def lay(self, sid):
+        return f"|sender-layout={self.layout[sid]}" if sid in self.layout else ""
 
     def lst(self, sid, name):
         return self.lists.setdefault((sid, canon(name)), [])
@@ -161,7 +166,7 @@ class Model:
                 self.stat("connect_unregistered_NameError")
             return
         if ev["exc"] is not None:
-            self.find(f"connect|registered-name|raise:{ev['exc']}", f"connect({sid},{name!r}) raised {ev['exc']}")
+            self.find(f"connect|registered-name|raise:{ev['exc']}{self.lay(sid)}", f"connect({sid},{name!r}) raised {ev['exc']}")
             return
         c = Conn(ev["cid"], sid, name, ev["hid"], ev["weak"], ev["uargs"], ev["uarg"])
         c.reent = ev.get("reent")  # ops that ran inside connect() while it consumed an argument iterable
@@ -178,7 +183,7 @@ class Model:
     def ev_disc_args(self, ev):
         self.stat("disc_args")
         if ev["exc"] is not None:
-            self.find(f"disconnect|raise:{ev['exc']}", f"disconnect_signal raised {ev['exc']}")
+            self.find(f"disconnect|raise:{ev['exc']}{self.lay(ev['sid'])}", f"disconnect_signal raised {ev['exc']}")
             return
         for c in self.lst(ev["sid"], ev["name"]):
             if c.same_args(ev):
@@ -190,7 +195,7 @@ class Model:
     def ev_disc_key(self, ev):
         self.stat("disc_key")
         if ev["exc"] is not None:
-            self.find(f"disconnect_by_key|raise:{ev['exc']}", f"disconnect_signal_by_key raised {ev['exc']}")
+            self.find(f"disconnect_by_key|raise:{ev['exc']}{self.lay(ev['sid'])}", f"disconnect_signal_by_key raised {ev['exc']}")
             return
         c = self.conns.get(ev["cid"]) if ev["cid"] is not None else None
         if c is not None and c.state == "live" and c.sid == ev["sid"] and c.nkey == canon(ev["name"]):
@@ -262,7 +267,7 @@ class Model:
             if n == 0:
                 f.finds.append(
                     (
-                        f"emit|handler-skipped|{depth}|during:{self.mutsig(f)}" + ("|connection-made-while-connect-was-re-entered" if c.reent else ""),
+                        f"emit|handler-skipped|{depth}|during:{self.mutsig(f)}" + ("|connection-made-while-connect-was-re-entered" if c.reent else "") + self.lay(sid),
                         f"connection #{c.cid} (handler {c.hid}) stayed connected throughout emit({sid},{name!r}) but was not called; "
                         f"snapshot={[x.cid for x in f.snapshot]} called={f.call_order} removed={f.removed} added={sorted(f.added)}",
                     )
@@ -436,12 +441,14 @@ def check(header, events):
 #   register  {t, c, names}                              register_signal(c, names) called by hand
 #   probe     {t, c, name, accepted, exc, called}        connect() attempted on an instance of c
 # must-accept(c)  = own(c) + must-accept(bases)              (later classes never change it)
-# may-accept(c)   = must-accept(c) + base_attr + may-accept(bases)   (a base's list may legitimately have grown
-#                                                        before c was created; names only in here are not judged)
+# everything else must be rejected.  (Until MetaSignals stopped extending the body's list object in place, names that a
+# base's list object happened to contain when c was created were tolerated; that band is now only measured:
+# registration_probes_in_former_tolerance_band.)
 
 
 def check_family(events):
     must, may, how, lists, order = {}, {}, {}, {}, []
+    band = {}  # class -> names that used to be tolerated (in a base's list object, not registered by the base)
     prov = {}  # class -> {name key: where the obligation to accept it comes from}
     gap = {}  # class -> True when it, or an ancestor, has no `signals` of its own and several bases
     findings, stats = [], {}
@@ -460,7 +467,11 @@ def check_family(events):
                 m |= must.get(b, set())
                 l |= may.get(b, set())
                 l |= {canon(x) for x in ev["base_attr"].get(b, [])}
-            must[c], may[c] = m, l | m
+            # Since the registered list is a fresh per-class list (own names + every MRO ancestor's), nothing outside
+            # must-accept may be accepted: the former "may-accept" band (contents a base's list object happened to have
+            # when the class was created) is only measured, no longer tolerated.
+            band[c] = (l | m) - m
+            must[c], may[c] = m, set(m)
             gap[c] = (ev["own"] is None and len(ev["bases"]) > 1) or any(gap.get(b) for b in ev["bases"])
             pv = {}
             for k in m:
@@ -503,6 +514,8 @@ def check_family(events):
                     findings.append((f"register|accepted-handler-not-called|class-signals={how[c]}", f"handler connected to ({c}, {ev['name']!r}) not called exactly once by emit"))
             elif k not in may[c]:
                 stat("registration_probes_must_reject")
+                if k in band.get(c, ()):
+                    stat("registration_probes_in_former_tolerance_band")
                 if later_sharing:
                     stat("registration_probes_must_reject_list_shared_with_later_class")
                 if ev["accepted"]:
